@@ -1,6 +1,7 @@
 /* C13/C14 harness: the real wavheader.c (+ pack.c) driven by the line protocol of lean/Librfn/Driver/Wav.lean.
  * Input and output buffers are exactly-sized heap blocks (ASan sees a one-byte over-read/over-write);
- * SIGFPE / SIGSEGV raised by a library call are caught and reported as the output of that op.
+ * SIGFPE / SIGSEGV (also from stack exhaustion: alternate signal stack) raised by a library call and calls that do not
+ * return within 2 s (`!! HANG`) are caught and reported as the output of that op.
  * ops: prior <160 hex> | init sf nch fmt | frames n | show | validate | getfmt | tostring | enc sz
  *      | dec sz <hex|-> | decbuf k | reset ; "--" echoes "--" */
 #include <stdio.h>
@@ -8,6 +9,7 @@
 #include <string.h>
 #include <signal.h>
 #include <setjmp.h>
+#include <unistd.h>
 #include <librfn.h>
 
 static rf_wavheader_t wh;
@@ -70,16 +72,28 @@ int main(void)
 {
 	static char line[1 << 16], op[32], a1[1 << 16], a2[1 << 16], a3[64];
 	setvbuf(stdout, NULL, _IOLBF, 0); /* keep output up to a crash */
-	struct sigaction sa; memset(&sa, 0, sizeof sa); sa.sa_handler = on_sig; sa.sa_flags = SA_NODEFER;
-	sigaction(SIGFPE, &sa, NULL); sigaction(SIGSEGV, &sa, NULL); sigaction(SIGBUS, &sa, NULL);
+	/* the handlers run on their own stack, so that exhausting the stack (unbounded recursion) is reported as an
+	 * output of the op like any other fault; every op runs under a 2 s alarm, so that a call that does not return is
+	 * reported as `!! HANG` and the run goes on */
+	static char altstack[1 << 16];
+	stack_t ss; memset(&ss, 0, sizeof ss); ss.ss_sp = altstack; ss.ss_size = sizeof altstack; sigaltstack(&ss, NULL);
+	struct sigaction sa; memset(&sa, 0, sizeof sa); sa.sa_handler = on_sig; sa.sa_flags = SA_NODEFER | SA_ONSTACK;
+	sigaction(SIGFPE, &sa, NULL); sigaction(SIGSEGV, &sa, NULL); sigaction(SIGBUS, &sa, NULL); sigaction(SIGALRM, &sa, NULL);
 	while (fgets(line, sizeof line, stdin)) {
 		a1[0] = a2[0] = a3[0] = 0;
 		int n = sscanf(line, "%31s %65000s %65000s %63s", op, a1, a2, a3);
 		if (n < 1) continue;
 		if (!strcmp(op, "--")) { puts("--"); continue; }
 		int sig = sigsetjmp(jb, 1);
-		if (sig) { armed = 0; printf("!! %s\n", sig == SIGFPE ? "SIGFPE" : sig == SIGSEGV ? "SIGSEGV" : "SIGBUS"); continue; }
-		armed = 1;
+		if (sig) {
+			armed = 0; alarm(0);
+			printf("!! %s\n", sig == SIGFPE ? "SIGFPE" : sig == SIGSEGV ? "SIGSEGV" : sig == SIGALRM ? "HANG" : "SIGBUS");
+			/* after a wild access, an exhausted stack or an abandoned call the process state is not to be trusted
+			 * (and further hangs would cost 2 s each): the fault line is the last output of this process */
+			if (sig != SIGFPE) { fflush(stdout); _exit(3); }
+			continue;
+		}
+		armed = 1; alarm(2);
 		if (!strcmp(op, "reset")) { memset(&wh, 0, sizeof wh); free(kept); kept = NULL; keptn = 0; puts("ok"); }
 		else if (!strcmp(op, "prior") && n == 2) {
 			uint8_t *p; long len = parse_hex(a1, &p);
@@ -117,7 +131,7 @@ int main(void)
 			if (k > keptn) puts("bad-op"); else do_dec(kept, (unsigned int)k);
 		}
 		else puts("bad-op");
-		armed = 0;
+		armed = 0; alarm(0);
 	}
 	return 0;
 }
